@@ -38,6 +38,21 @@ def colliding_words(rng, n, mod):
     return out
 
 
+def full_hash_prefix_pairs():
+    """Pairs (w, w + s) with the SAME 28-bit hash, found from the structure of the hash function (the fold '>> 23' gives periodic words a
+    period of 23 or 46 repetitions) and checked with the transcription above: a hash hit on a word that is a proper prefix of a stored
+    one is exactly where the equality test of the table has to look at the length (seeded change C18-b replaced the length test by a
+    test of the cached hash).  Three more pairs were found by brute force by the author of that change."""
+    out = [(b"nwxgwmnn", b"nwxgwmnnN"), (b"knno_djx", b"knno_djxx"), (b"8879988862", b"88799888622")]
+    for unit in (b"x", b"0", b"a", b"_", b"Z", b"9", b"ab", b"01", b"abc", b"x1", b"7", b"q_", b"\xc3\xa9", b"zz9"):
+        for n in (1, 2, 3, 5):
+            for d in (23, 46):
+                a, b = unit * n, unit * (n + d)
+                if pjw(a) == pjw(b):
+                    out.append((a, b))
+    return [(a, b) for a, b in out if pjw(a) == pjw(b)]
+
+
 def enum_histories(words, maxlen):
     ops = ["i" + hx(w) for w in words] + ["f" + hx(w) for w in words]
     out = []
@@ -212,6 +227,17 @@ def run(ctx):
         lines.append(" ".join(ops))
     for _ in range(400 if ctx.quick else 4000):
         lines.append(random_history(rng, rng.randrange(5, 120)))
+    # 3b. full-hash collisions between a word and a proper prefix of it, in both insertion orders, with finds in between and after growth
+    pairs = full_hash_prefix_pairs()
+    for a, b in pairs:
+        for first, second in ((a, b), (b, a)):
+            lines.append(" ".join(["i" + hx(first), "f" + hx(second), "i" + hx(second), "f" + hx(first), "f" + hx(second), "i" + hx(first), "i" + hx(second)]))
+    ops = []
+    for j, (a, b) in enumerate(pairs):
+        ops += ["i" + hx(b if j % 2 else a), "i" + hx(b"pad%d" % j), "i" + hx(a if j % 2 else b)]
+    ops += ["f" + hx(w) for ab in pairs for w in ab] + ["i" + hx(w) for ab in pairs for w in ab]
+    lines.append(" ".join(ops))
+    ctx.notes["full_hash_prefix_pairs"] = len(pairs)
     # the NUL witness of Props/C18.lean (correspondence only)
     lines.append("i610062 i610063")
     lines.append("i61 i6100 i610000 f61 f6100")
